@@ -44,13 +44,44 @@ static bstr *g14_piece[PMAX];          /* the pieces stored at entry */
 static size_t g14_plen[PMAX];
 static const unsigned char *g14_bnd;   /* the delimiter string the parser was given */
 
-/* ---- the set-aside store: real bstr_builder_append_mem, logged.  htp_multipart.c is compiled with
- *      bstr_builder_append_mem renamed to c14_bb_append_mem (unit key `pre`); everything else in
- *      bstr_builder.c / bstr.c / htp_list.c is the real code. ---- */
-#undef bstr_builder_append_mem
-htp_status_t bstr_builder_append_mem(bstr_builder_t *bb, const void *data, size_t len);
+/* ---- the set-aside store (parser->boundary_pieces): MODEL of the string builder.  htp_multipart.c is compiled with
+ *      bstr_builder_append_mem/_size/_clear and htp_list_array_size/_get renamed to the c14_* functions below
+ *      (unit key `pre`).  The model keeps the pieces in order in heap objects of EXACTLY sizeof(bstr)+len bytes
+ *      (so that an index past a piece is an out-of-bounds read), copies like bstr_dup_mem, may fail like it. ---- */
+static bstr *c14_slot[PMAX + 1];
+static size_t c14_nslots;
+static bstr_builder_t c14_bb;
+static htp_list_t c14_bbl;
+#define C14_IS_BB(bb) ((bb) == &c14_bb)
+
+static bstr *c14_piece_alloc(const unsigned char *data, size_t len, size_t maxlen) {
+    bstr *b = NULL;
+    /* enumerate the length so that object size and copy are constant (HOWTO 4: symbolic-size objects + writes) */
+    for (size_t k = 0; k <= maxlen; k++) if (len == k) {
+        b = malloc(sizeof (bstr) + k);
+        if (b != NULL) { b->len = k; b->size = k; b->realptr = NULL; if (k > 0) memcpy((unsigned char *) b + sizeof (bstr), data, k); }
+    }
+    return b;
+}
+
+size_t c14_bb_size(const bstr_builder_t *bb) { VASSERT(C14_IS_BB(bb), "only the boundary_pieces builder is used"); return c14_nslots; }
+size_t c14_list_size(const htp_list_t *l) { VASSERT(l == &c14_bbl, "only the boundary_pieces list is read"); return c14_nslots; }
+void *c14_list_get(const htp_list_t *l, size_t idx) {
+    VASSERT(l == &c14_bbl, "only the boundary_pieces list is read");
+    if (idx >= c14_nslots) return NULL;
+    for (size_t i = 0; i < PMAX + 1; i++) if (i == idx) return c14_slot[i];
+    return NULL;
+}
+void c14_bb_clear(bstr_builder_t *bb) {
+    VASSERT(C14_IS_BB(bb), "only the boundary_pieces builder is used");
+#ifdef VNATIVE
+    for (size_t i = 0; i < c14_nslots; i++) free(c14_slot[i]);
+#endif
+    c14_nslots = 0;
+}
 htp_status_t c14_bb_append_mem(bstr_builder_t *bb, const void *data, size_t len) {
     const unsigned char *d = data;
+    VASSERT(C14_IS_BB(bb), "only the boundary_pieces builder is used");
     VASSERT(C14_SAME(d, g14_chunk, N), "set-aside data comes from the current chunk");
     size_t off = (size_t) (d - g14_chunk);
     VASSERT(off <= N && len <= N - off, "set-aside range lies inside the chunk");
@@ -58,15 +89,18 @@ htp_status_t c14_bb_append_mem(bstr_builder_t *bb, const void *data, size_t len)
     VASSERT(off == g14_hi || g14_gap_ok, "no chunk byte is skipped in front of the set-aside range (except a delimiter line)");
     VASSERT(off + len == N, "the set-aside range extends to the end of the chunk");
     g14_hi = off + len; g14_gap_ok = 0; g14_started = 1; g14_app_n++;
-    htp_status_t rc = HTP_ERROR;
-    /* enumerate the length so that the copy has a constant size (HOWTO 4: symbolic-size objects + writes) */
-    for (size_t k = 0; k <= N; k++) if (len == k) rc = bstr_builder_append_mem(bb, data, k);
+    VASSERT(c14_nslots <= PMAX, "the builder model has room (WF bounds the number of pieces)");
+    if (c14_nslots > PMAX) return HTP_ERROR;
+    bstr *b = c14_piece_alloc(d, len, N);
 #ifdef KNOWN_F_C14_APPEND_FAIL
     /* F-C14-APPEND (C18): the parser ignores a failed set-aside copy (htp_multipart.c:1278); the bytes are lost and
      * boundary_candidate_pos then indexes past a LATER piece (native: notes/c14.md).  Excluded: allocation failure here. */
-    VASSUME(rc == HTP_OK);
+    VASSUME(b != NULL);
 #endif
-    return rc;
+    if (b == NULL) return HTP_ERROR;
+    for (size_t i = 0; i < PMAX + 1; i++) if (i == c14_nslots) c14_slot[i] = b;
+    c14_nslots++;
+    return HTP_OK;
 }
 
 /* ---- the part layer: parser->handle_data / parser->handle_boundary ---- */
@@ -131,11 +165,11 @@ static int c14_handle_boundary(htp_mpartp_t *p) {
 
 /* WF of the stored pieces in STATE_BOUNDARY, checked on the real builder after the call */
 static void c14_check_pieces(htp_mpartp_t *p) {
-    size_t np = bstr_builder_size(p->boundary_pieces);
+    size_t np = c14_nslots;
     size_t t = 0, sum = 0;
     VASSERT(np <= PMAX, "WF': at most |delimiter|-2 pieces are stored");
     for (size_t i = 0; i < PMAX + 1; i++) if (i < np) {
-        bstr *b = htp_list_get(p->boundary_pieces->pieces, i);
+        bstr *b = c14_slot[i];
         size_t l = bstr_len(b);
         unsigned char *ptr = bstr_ptr(b);
         VASSERT(l >= 1 && (i > 0 || l >= p->boundary_candidate_pos), "WF': boundary_candidate_pos lies inside the first stored piece; no piece is empty");
@@ -187,10 +221,11 @@ static void c14_parse_harness(vin_t in) {
     VASSUME(!(in.state == STATE_DATA && in.cr == 1 && in.chunk[0] == '\r'));
 #endif
 
-    htp_mpartp_t *p = calloc(1, sizeof (htp_mpartp_t));
+    static htp_mpartp_t c14_parser;                     /* a named object: symex resolves parser->handle_data to the stub */
+    htp_mpartp_t *p = &c14_parser;
     unsigned char *chunk = malloc(N);                   /* exactly N bytes: a read of data[len] is out of bounds */
     char *bnd = malloc(BL + 1);                          /* as htp_mpartp_init_boundary: BL bytes and a NUL */
-    VASSUME(p != NULL && chunk != NULL && bnd != NULL);
+    VASSUME(chunk != NULL && bnd != NULL);
     memcpy(chunk, in.chunk, N);
     memcpy(bnd, in.bnd, BL); bnd[BL] = 0;
     p->multipart.boundary = bnd; p->multipart.boundary_len = BL;
@@ -199,14 +234,12 @@ static void c14_parse_harness(vin_t in) {
     p->parser_state = in.state; p->boundary_match_pos = in.bmp; p->boundary_candidate_pos = in.bcp;
     p->cr_aside = (int) in.cr; p->current_part_mode = in.mode ? MODE_DATA : MODE_LINE;
     p->current_part = NULL;
-    p->boundary_pieces = bstr_builder_create();
-    VASSUME(p->boundary_pieces != NULL);
+    c14_bb.pieces = &c14_bbl; p->boundary_pieces = &c14_bb; c14_nslots = 0;
     for (size_t i = 0; i < PMAX; i++) if (i < in.np) {
-        htp_status_t rc = HTP_ERROR;
-        for (size_t k = 1; k <= PLEN; k++) if (in.pl[i] == k) rc = bstr_builder_append_mem(p->boundary_pieces, in.pb[i], k);
-        VASSUME(rc == HTP_OK);
-        g14_piece[i] = htp_list_get(p->boundary_pieces->pieces, i);
-        g14_plen[i] = in.pl[i];
+        bstr *b = c14_piece_alloc(in.pb[i], in.pl[i], PLEN);
+        VASSUME(b != NULL);
+        c14_slot[i] = b; c14_nslots = i + 1;
+        g14_piece[i] = b; g14_plen[i] = in.pl[i];
     }
     /* ---------- ghost log ---------- */
     g14_chunk = chunk; g14_bnd = (const unsigned char *) bnd;
@@ -225,7 +258,7 @@ static void c14_parse_harness(vin_t in) {
     VASSERT(p->cr_aside == 0 || p->cr_aside == 1, "WF': cr_aside is 0 or 1");
     VASSERT(p->boundary_match_pos >= 2 && p->boundary_match_pos <= BL, "WF': 2 <= boundary_match_pos <= boundary_len");
     VASSERT(p->multipart.boundary == bnd && p->multipart.boundary_len == BL, "delimiter string untouched");
-    size_t np1 = bstr_builder_size(p->boundary_pieces);
+    size_t np1 = c14_nslots;
     if (p->parser_state != STATE_BOUNDARY) {
         VASSERT(np1 == 0, "WF': pieces are stored only while a candidate is open");
         VASSERT(p->cr_aside == 0 || p->parser_state == STATE_DATA, "WF': a CR is set aside only in data / candidate state");
